@@ -138,7 +138,13 @@ func showall(w io.Writer, e *yang.Entry) {
 		fmt.Fprintf(w, "\n%s\n  ", e.Node.Statement().Location())
 		printType(w, e.Type.Root, false)
 	}
-	for _, d := range e.Dir {
-		showall(w, d)
+	// In a fixed order, not in the order of map iteration.
+	names := make([]string, 0, len(e.Dir))
+	for name := range e.Dir {
+		names = append(names, name)
+	}
+	sort.Strings(names)
+	for _, name := range names {
+		showall(w, e.Dir[name])
 	}
 }
